@@ -745,7 +745,7 @@ def run(chk: core.Check):
 
     # ---- stage 2: correspondence on documents x access sequences
     corpus = [json.loads(p.read_text()) for p in sorted((core.VERIF / "corpus" / "C08").glob("*.json"))]
-    n = 520 if quick else 9000
+    n = 520 if quick else 7000
     cases = [(c["doc"], c["accesses"]) for c in corpus]
     for _ in range(n):
         d = gen_doc(rng)
@@ -790,7 +790,7 @@ def run(chk: core.Check):
     # ---- stage 2b: the region predicates of the theorems, evaluated in Coq, against the implementation:
     #      coherent = true  =>  the sequence on one schema object equals the lookups on fresh objects;
     #      iteration_completes = true  =>  every documented operation is Ok or Err
-    k = len(corpus) + (140 if quick else 1500)
+    k = len(corpus) + (140 if quick else 1000)
     sub = [(d, a) for (d, a) in cases[:k]]
     flags = core.coq_eval(IMPORTS, [f"(coherent {version_of(d)} {cjson(d)} {clist([c_access(x) for x in a], 'access')}, iteration_completes {version_of(d)} {cjson(d)})" for d, a in sub], shard=25)
     n_coh = n_compl = 0
@@ -832,7 +832,7 @@ def run(chk: core.Check):
             crash_n += 1
             chk.fail("documented operations neither offered nor reported", {"doc": doc}, {"missing": missing, "generator_ended_with": it["crash"]},
                      region="uncaught_exception" if it["crash"] is not None else None)
-    extra = (150 if quick else 3000) * mult
+    extra = (150 if quick else 2000) * mult
     for _ in range(extra):
         doc = gen_doc(rng)
         accs = gen_accesses(rng, doc, n=rng.choice([6, 8, 12]))
